@@ -495,6 +495,128 @@ def main():
                         % (" after %d refused BinaryWrite(PostLog) to /dev/full" % nref if nref else "", o.split()[1:7]), {"cases": [l], "expected": " ".join(exp), "got": o[:2000]})
         c.nontrivial(("append-hist", nref))
 
+    # ------------------------------------------------------------ 5c. restarts: NewSHM over the segment a previous run left
+    # Several runs of a server over one key in one process (production mode): first start, restart with isCreate
+    # (what main does), attach; before the first run a left-over segment may be planted - of this configuration,
+    # of the other one (its Size stamp, its allocation), of a pttbbs with other constants (Size stamp off by a
+    # few bytes, other Version). An observer attachment snapshots the whole segment before every NewSHM.
+    # Reference (written here): an existing segment is never written; it is accepted iff it is large enough and
+    # stamped with SHM_VERSION 4842 and this build's SHM_RAW_SZ; a first start stamps Version/Size, Number = Loaded = 0.
+    SHMV = 4842
+    RAWSZ = {cn: compiled[(cn, "SHMRaw")]["size"] for cn in ("default", "docker") if (cn, "SHMRaw") in compiled}
+    if len(RAWSZ) == 2:
+        MB = 1048576
+        def need(cn, al):
+            return RAWSZ[cn] if al == 0 else (RAWSZ[cn] // al + 1) * al
+
+        def ref_restart(cn, al, seg, runs):
+            """seg: None or [alloc, ver, size, number, loaded] -> [(status, seen segment or None, segment before)]"""
+            out = []
+            for cr, n, l in runs:
+                before = None if seg is None else list(seg)
+                if seg is None:
+                    if cr:
+                        seg = [need(cn, al), SHMV, RAWSZ[cn], 0, 0]; st = (0, 0)
+                    else:
+                        st = (3, 5)
+                elif seg[0] < need(cn, al):
+                    st = (3, 5)
+                elif seg[1] != SHMV:
+                    st = (3, 1)
+                elif seg[2] != RAWSZ[cn]:
+                    st = (3, 2)
+                else:
+                    st = (0, 0)
+                out.append((st, None if seg is None else list(seg), before))
+                if st == (0, 0):
+                    seg = seg[:3] + [n, l]
+            return out
+
+        def restart_line(cn, al, seg, runs):
+            return "13|%d %d|%s|%s" % (0 if cn == "default" else 1, al, "0 0 0 0 0 0" if seg is None else "1 " + toks(seg), "|".join("%d %d %d" % r for r in runs))
+
+        def rruns(k=None):
+            return [(rng.choice([1, 1, 1, 0]), rng.randrange(1, 2 ** 31), rng.randrange(2)) for _ in range(k or rng.randrange(1, 4))]
+
+        rcases = []                                             # (build, al, seg, runs)
+        for cn, other in (("default", "docker"), ("docker", "default")):
+            own = need(cn, MB)
+            rcases.append((cn, MB, None, [(1, 7, 1), (1, 9, 1), (0, 11, 1), (1, 12, 0)]))                 # first start, restarts, attach
+            rcases.append((cn, MB, [own, SHMV, RAWSZ[cn], 7, 1], [(1, 8, 1), (1, 9, 0)]))               # restart on the own left-over segment
+            rcases.append((cn, MB, [own, SHMV, RAWSZ[cn] + rng.choice([-8, -4, 4, 8, 3484]), 7, 1], [(1, 8, 1), (0, 9, 1), (1, 10, 1)]))   # a pttbbs with other constants, same allocation
+            if need(other, MB) >= own:                          # the other configuration's segment is large enough: shmget succeeds
+                rcases.append((cn, MB, [need(other, MB), SHMV, RAWSZ[other], 7, 1], [(1, 8, 1), (1, 9, 1)]))
+            else:                                               # too small: shmget refuses; fields beyond the allocation read as 0
+                rcases.append((cn, MB, [need(other, MB), SHMV, RAWSZ[other], 0, 0], [(1, 8, 1), (0, 9, 1)]))
+        cn = "default"
+        own = need(cn, MB)
+        rcases.append((cn, MB, None, [(0, 1, 1), (1, 2, 1), (0, 3, 1)]))                                # attach before any start
+        for ver in (SHMV - 1, SHMV + 1, 0, rng.randrange(1, 2 ** 31)):
+            rcases.append((cn, MB, [own, ver, rng.choice([RAWSZ[cn], RAWSZ["docker"], 0]), rng.randrange(1, 2 ** 31), 1], rruns()))
+        for size in (0, -1, RAWSZ[cn] + 1, RAWSZ[cn] - 1, 2 ** 31 - 1, rng.randrange(1, 2 ** 31)):
+            rcases.append((cn, MB, [own, SHMV, size, rng.randrange(1, 2 ** 31), 1], rruns()))
+        rcases.append((cn, MB, [own + MB, SHMV, RAWSZ[cn], 5, 1], rruns(2)))                            # larger allocation, own stamps
+        rcases.append((cn, MB, [own + MB, SHMV, RAWSZ[cn] + MB, 5, 1], rruns(2)))                       # larger allocation, its own larger Size stamp
+        rcases.append((cn, MB, [RAWSZ[cn], SHMV, RAWSZ[cn], 5, 1], rruns(2)))                           # exactly SHM_RAW_SZ: smaller than the aligned size
+        for al in (0, 4096, 4 * MB):
+            rcases.append((cn, al, None, [(1, 7, 1), (1, 9, 1)]))
+            rcases.append((cn, al, [need(cn, al), SHMV, RAWSZ[cn] + 4, 7, 1], rruns(2)))
+            rcases.append((cn, al, [need(cn, al), SHMV, RAWSZ[cn], 7, 1], rruns(2)))
+        for _ in range(150 if thorough else 10):
+            al = rng.choice([MB, MB, 0, 4096, 65536])
+            seg = rng.choice([None, "own", "own", "foreign", "foreign", "foreign"])
+            if seg is not None:
+                seg = [need(cn, al) + rng.choice([0, 0, 4096, MB, -4096]), rng.choice([SHMV, SHMV, SHMV, SHMV + 1, 0]),
+                       RAWSZ[cn] if seg == "own" else rng.choice([RAWSZ[cn] + 4 * rng.randrange(-50, 50), RAWSZ["docker"], 0, rng.randrange(2 ** 31)]),
+                       rng.randrange(1, 2 ** 31), rng.randrange(2)]
+            rcases.append((cn, al, seg, rruns(rng.randrange(1, 6))))
+        FIELDS = ["Version", "Size", "Number", "Loaded"]
+        for cn, exe in (("default", impl), ("docker", impl_docker)):
+            mine = [rc for rc in rcases if rc[0] == cn]
+            rl = [restart_line(*rc) for rc in mine]
+            ro_ = both(rl, "restarts: cache.NewSHM over a left-over segment (%s build) vs shm_history" % cn, exe)
+            c.count(len(rl), "restart histories (%s)" % cn)
+            c.count(sum(len(rc[3]) for rc in mine), "runs of NewSHM")
+            for (cn_, al, seg, runs), l, o in zip(mine, rl, ro_):
+                ref = ref_restart(cn, al, seg, runs)
+                exp = ["0"]
+                for st, seen, before in ref:
+                    exp += [str(st[0]), str(st[1])] + (["0"] if seen is None else ["1"] + [str(x) for x in seen[1:]] + ["0"])
+                t = o.split()
+                rep = {"cases": [l], "expected": " ".join(exp), "got": o[:600]}
+                what = "%s build, SHMALIGNEDSIZE %d, %s" % (cn, al, "no segment under the key" if seg is None else
+                        "left-over segment of %d bytes stamped Version %d Size %d (this build: %d / %d, asks for %d bytes), Number %d Loaded %d" % (seg[0], seg[1], seg[2], SHMV, RAWSZ[cn], need(cn, al), seg[3], seg[4]))
+                if t[:1] != ["0"]:
+                    c.violation("restart-crash", "a history of %d runs of cache.NewSHM crashes/hangs (%s)" % (len(runs), what), rep)
+                    continue
+                if t != exp:
+                    # walk the runs: name the first one that departs and how
+                    i, key, msg = 1, "restart:other", "the result differs from the reference"
+                    for k, (st, seen, before) in enumerate(ref):
+                        n_ = 3 if seen is None else 8
+                        g = t[i:i + n_]; e_ = exp[i:i + n_]; i += n_
+                        if g == e_:
+                            continue
+                        run = "run %d (NewSHM isCreate=%s)" % (k + 1, bool(runs[k][0]))
+                        wrote = ""
+                        if before is not None and len(g) == 8 and (g[3:7] != [str(x) for x in before[1:]] or g[7] != "0"):
+                            ch = [FIELDS[j] + " %s -> %s" % (before[1 + j], g[3 + j]) for j in range(4) if g[3 + j] != str(before[1 + j])]
+                            wrote = "wrote into the segment that already existed: %s%s" % (", ".join(ch) or "no header field", "" if g[7] == "0" else "; %s further bytes changed" % g[7])
+                        if g[:2] == ["0", "0"] and st != (0, 0):
+                            key, msg = "restart:foreign-segment-accepted", "%s accepted a segment that is not this configuration's (expected status %s)%s" % (run, list(st), "; it " + wrote if wrote else "")
+                        elif wrote:
+                            key, msg = "restart:leftover-segment-written", "%s %s" % (run, wrote)
+                        elif before is None and len(g) == 8 and g[:2] == ["0", "0"]:
+                            key, msg = "restart:first-start-stamp", "%s created the segment but left it Version/Size/Number/Loaded/other bytes %s (expected %s)" % (run, g[3:], e_[3:])
+                        else:
+                            msg = "%s: got %s, expected %s" % (run, g, e_)
+                        break
+                    c.violation(key, "%s: %s" % (what, msg), rep)
+                for (cr, n, l_), (st, seen, before) in zip(runs, ref):
+                    c.nontrivial(("restart", cn, al, cr, st, None if before is None else tuple(before[:3])))
+        c.sample({"op": "restart history", "case": restart_line(*rcases[3])[:120], "meaning": "default build restarted over the segment of the docker build"})
+        c.cov["exhaustive_parts"].append("restart of each build {default, docker} over: no segment, its own left-over segment, a same-sized segment with another Size stamp, the other build's segment")
+
     # ------------------------------------------------------------ 6. what the source hands to encoding/binary
     ba = open(os.path.join(vf.COQ, "Gen", "BinArgs_default.v")).read()
     lists = {m.group(1): re.findall(r'"([^"]+)"', m.group(2)) for m in re.finditer(r"Definition (\w+) : list string := \[(.*?)\]\.", ba)}
@@ -528,12 +650,14 @@ def main():
                   "histories (one process): every refused writer {PasswdUpdatePasswd, PasswdUpdateEmail, SetUMoney, PasswdUpdate} x {ENOSPC on a full device, EFBIG under RLIMIT_FSIZE 0} followed by every kind of write "
                   "{the same four, PasswdUpdateUserLevel2}, then PRNG histories of 2-8 steps over uids {1,2,3,4,7,MAX,invalid}; types.BinaryWrite histories to writers refusing after 0/k bytes, /dev/full-like device, read-only and closed handles; "
                   "AppendRecord(.post) after refused writes; whole file images compared byte for byte with a reference written in the check; "
+                  "restarts: histories of 1-5 runs of cache.NewSHM (isCreate or attach) in production mode over one private key, in both builds, from {no segment, own left-over segment, foreign Size stamp +-4..3484 / other build's / 0 / -1 / PRNG, foreign Version, smaller/larger allocation, the other build's whole segment} x SHMALIGNEDSIZE {1 MB, 0, 4096, 64 KB, 4 MB}; every byte of the segment compared with a snapshot taken before each NewSHM; "
                   "a case is non-trivial if it is a distinct (build, type) layout, a distinct record value, or a distinct accepted update",
              assumptions=["encoding/binary, reflect and the gc layout (unsafe.Sizeof/Offsetof) are observed through the compiled driver, not verified",
                           "the docker build is used for layout only (MAX_USERS = 2 000 000 makes .PASSWDS 1 GB); dynamic cases run on the default build",
                           "coq/Model/C01_Frozen.v was transcribed from DESIGN.md Appendix C (pttbbs pttstruct.h), no C header is available offline",
                           "histories: a refused write is one of which nothing reaches the file (ENOSPC on a private character device 1:7 created by the driver - the shared /dev/full only if it still is that device -, EFBIG under RLIMIT_FSIZE 0 with SIGXFSZ ignored, EBADF on read-only/closed handles); a write torn inside a regular file is C05's subject and appears here only as a writer with room for k bytes",
                           "histories: the level-2 update's own BinaryWrite calls cannot be made to fail in the sandbox (on a full device its zero-fill write fails first; root ignores file modes), so PasswdUpdateUserLevel2 is exercised AFTER refused writes but never as the refused write",
+                          "restarts: theorem (C01_restart_*) covers NewSHM's decision over the abstract left-over segment; that no byte of an existing segment is written and that shmget refuses a smaller segment are validated on planted segments through a second attachment (the other configuration's segment is planted by the driver with that configuration's stamps and allocation, not produced by the other binary); runs are sequential in one process, a detach stands for the process exit; no verdict depends on time",
                           "histories: the driver runs a pinned history on one P with the collector off so that state kept between calls (package variable, sync.Pool) is met again; verdicts come from byte comparison only. An UpdateTS that lies inside the history's own start/end second is reported as the `now` of the case line (the clock is an input)"])
 
 
